@@ -174,3 +174,64 @@ Definition dst (s : sx) : st :=
   let m := dpairs (dnth s 2) in
   let s0 := init_st p (dmemsys (dnth s 3) m) (dicache (dnth s 4)) in
   fold_left (fun acc kv => rset acc (fst kv) (snd kv)) r s0.
+
+(** * TOY *)
+From ArchSim Require Import Model.Toy.
+
+Definition sx_str (s : str) : sx := sx_zs s.
+Definition sx_repr4 (r : str * str * str * str) : sx :=
+  let '(a, b, c, d) := r in Lx [sx_str a; sx_str b; sx_str c; sx_str d].
+Definition sx_tinstr (i : tinstr) : sx := sx_zs [top i; taddr i].
+Definition sx_vis (v : vis) : sx :=
+  Lx [sx_opt Zx (v_accu_old v); sx_opt Zx (v_alu_out v); sx_bool (v_jump v);
+      sx_opt Zx (v_ram_out v); sx_opt Zx (v_op_old v); sx_opt Zx (v_pc_old v)].
+Definition sx_trow (r : trow) : sx :=
+  Lx [Zx (r_addr r); sx_str (r_hexaddr r); sx_repr4 (r_vals r); sx_str (r_instr r); sx_str (r_mark r)].
+
+Definition sx_tstate (s : tstate) : sx :=
+  Lx [ Zx (t_pc s); Zx (t_accu s); sx_zmap_sorted (t_mem s);
+       sx_opt sx_tinstr (t_loaded s); sx_opt Zx (t_maxpc s); sx_opt Zx (t_cur s); Zx (t_next s);
+       sx_vis (t_vis s);
+       sx_zs [t_icount s; t_cycles s; t_bcount s];
+       Zx (t_nextcycle s); sx_bool (t_started s);
+       sx_bool (toy_done s); sx_bool (toy_has_instructions s);
+       sx_list sx_repr4 (toy_register_reprs s);
+       sx_res (sx_list sx_trow) (toy_memory_table s) ].
+
+Definition sx_toutcome (o : toutcome) : sx :=
+  match o with TNone => Lx [Zx 0] | TSeqErr => Lx [Zx 1] | TMemErr e => Lx [Zx 2; sx_err e] end.
+
+(* initial TOY state built directly:
+   (size mem-pairs accu pc loaded-word-opt maxpc-opt) *)
+Definition dtstate (s : sx) : tstate :=
+  let s0 := toy_init (dz (dnth s 0)) 1 false in
+  {| t_pc := dz (dnth s 3); t_accu := dz (dnth s 2); t_mem := dpairs (dnth s 1); t_size := t_size s0;
+     t_loaded := dopt (fun w => toy_decode (dz w)) (dnth s 4);
+     t_maxpc := dopt dz (dnth s 5);
+     t_cur := None; t_next := 0; t_vis := vis0; t_icount := 0; t_cycles := 0; t_bcount := 0;
+     t_nextcycle := 1; t_started := false |}.
+
+(* token lines: (ln kind ...): 0 directive d | 1 var name (vals) | 2 instr (inl?) op operand | 3 label name
+   operand: (0 str) literal | (1 l) label | () none *)
+Definition dtoperand (s : sx) : toperand :=
+  match dl s with
+  | [] => TNoOperand
+  | k :: v :: _ => if dz k =? 0 then TAddrLit (dzs v) else TLabel (dz v)
+  | _ => TNoOperand
+  end.
+Definition dtline (s : sx) : Z * tline :=
+  let ln := dz (dnth s 0) in
+  let k := dz (dnth s 1) in
+  (ln,
+   if k =? 0 then TLDirective (dz (dnth s 2))
+   else if k =? 1 then TLVar (dz (dnth s 2)) (map dzs (dl (dnth s 3)))
+   else if k =? 2 then TLInstr (dopt dz (dnth s 2)) (dz (dnth s 3)) (dtoperand (dnth s 4))
+   else TLLabel (dz (dnth s 2))).
+
+Definition sx_perr (e : perr) : sx :=
+  match e with
+  | PSyntax l => sx_zs [1; l] | PLabel l => sx_zs [2; l] | POdd l => sx_zs [3; l]
+  | PDupLabel l => sx_zs [4; l] | PDirective l => sx_zs [5; l] | PDataSyntax l => sx_zs [6; l]
+  | PDataDup l => sx_zs [7; l] | PVariable l => sx_zs [8; l] | PMemSize w => sx_zs [9; w]
+  | PMemAddr a => sx_zs [10; a] | PUncaught l => sx_zs [11; l]
+  end.
